@@ -236,7 +236,11 @@ func closureSuffix(fn *ssa.Function) string {
 func (x *Exec) rangeCall(st *State, m Term, kt, vt types.Type, fval Val, k func(st *State, res Val)) {
 	clo, ok := fval.(*CloVal)
 	if !ok {
-		unsup("Range with a function value that is not a local closure")
+		if fv, isF := fval.(*FuncVal); isF && fv.Fn.Parent() != nil {
+			clo = &CloVal{Fn: fv.Fn} // a function literal that captures nothing
+		} else {
+			unsup("Range with a function value that is not a local closure")
+		}
 	}
 	fr := st.top()
 	c := x.eng.contractFor(fr.fn)
